@@ -5,12 +5,12 @@ HERE = os.path.dirname(os.path.abspath(__file__))
 
 CLAIMED = {
  "C05": dict(
-   text="Seeded search over operation histories on 1-4 live iterator handles of ~100 generated enums (N=0..8 enabled variants plus larger, every placement of disabled variants, generics instantiated with a !Send+!Sync payload), in debug (overflow checks on) and release (off) builds, against a two-cursor reference model whose nth/skip/step_by/rev behaviour is core's own default methods; after every step every live handle's len, size_hint and full remaining contents from both ends are compared. Huge-n arguments (usize::MAX, MAX-1, MAX/2, random u64) are the injected fault. The Send+Sync clause is decided by compiling a probe. Exploration, not proof: every (N, front, back) cursor state is visited for each corpus N and the evidence reports the measured coverage.",
+   text="Seeded search over operation histories (30 operation kinds: next/next_back/nth/nth_back/len/size_hint/clone, skip/step_by/rev/take/enumerate adapters from both ends, by-value last/count/fold/rfold/find/position on clones) on 1-4 live iterator handles of ~115 generated enum instantiations (N=0..8 enabled variants plus 13..257, every placement of disabled variants, explicit discriminants, generics instantiated with a !Send+!Sync payload), in debug (overflow checks on) and release (off) builds, against a two-cursor reference model whose nth/skip/step_by/rev behaviour is core's own default methods; after every step every live handle's len, size_hint and full remaining contents from both ends are compared. Huge-n arguments (usize::MAX, MAX-1, MAX/2, around powers of two, random u64) are the injected fault. The Send+Sync clause is decided by compiling a probe. Exploration, not proof: every (N, front, back) cursor state is visited for each corpus N and the evidence reports the measured coverage.",
    note="Trusted: rustc/core (reference adapters), the corpus generator's explicit expected-item lists, the harness. Histories are sampled (bounded to 40 steps, 4 handles), not enumerated.",
    technique="deterministic simulation: seeded operation-history search vs. reference model, huge-n fault injection, debug+release",
    design="3"),
  "C10": dict(
-   text="Seeded search over write/read/constructor histories on 1-3 live EnumTable values of generated field-less enums against a Vec reference map; every written value is unique so each read is attributable to one write; after every step every slot of every live table is compared. Injected faults: planted None/Err slots in every position subset for all()/all_ok() (first-Err-in-declaration-order oracle), indexing with disabled keys (must panic and change nothing), panicking closures during from_closure/transform. Exploration, not proof.",
+   text="Seeded search over write/read/constructor histories on 1-3 live EnumTable values of ~90 generated field-less enums (1..300 slots, disabled variants in every position, explicit discriminants, keyword/acronym/digit identifiers) against a Vec reference map; every written value is unique so each read is attributable to one write; after every step every slot of every live table is compared. Injected faults: planted None/Err slots in every position subset for all()/all_ok() (first-Err-in-declaration-order oracle), indexing with disabled keys (must panic and change nothing), panicking closures during from_closure/transform. Exploration, not proof.",
    note="Trusted: rustc/core, the generator-written key lists and positional new() glue, the harness. Histories are sampled, not enumerated.",
    technique="deterministic simulation: seeded write/read history search vs. reference map, planted None/Err and disabled-key fault injection",
    design="4"),
